@@ -308,6 +308,10 @@ pub struct Checker<'a>
     gc_overdue_insts: Vec<usize>,
     /// entities that collection passes are busy despawning (innermost last)
     gc_taking: Vec<u64>,
+    /// trace position of the first `Gone` of an entity
+    gone_pos: HashMap<u64, usize>,
+    /// a collection pass received a notification for something that was already gone (a stale reference, C18)
+    stale_take_seen: bool,
     /// a removal or despawn trigger was revoked at some point of this run
     revoked_polled: bool,
     gc_before: Vec<bool>,
@@ -354,7 +358,7 @@ impl<'a> Checker<'a>
             tokens: vec![None; prog.insts.len()], res: [0, 0, 0], res_t_present: true, payloads: HashMap::new(), pending_immediate_drop: None,
             polled: Vec::new(), postponed: Vec::new(), stack: Vec::new(), tree_depth: 0, seq: 0, sender: (DRIVER, 0),
             wr_keys: [Vec::new(), Vec::new()], sigs: vec![(None, 0); 4], doomed_ents: Vec::new(), resolve_uncertain: Vec::new(), fifo: HashMap::new(),
-            gc_guaranteed_this_step: false, in_direct_step: false, in_gc: false, in_op_prologue: false, pre_targets: None, pre_ent: None, pre_t_present: None, poll_epoch: 0, sure_epoch: 0, gc_must: Vec::new(), gc_pending_deadline: false, gc_overdue: Vec::new(), gc_overdue_insts: Vec::new(), gc_taking: Vec::new(), revoked_polled: false, gc_before: Vec::new(), doomed_in_tree: Vec::new(), sig_harness: [0; 4], deferred_bail: None, bulk_released: 0, bulk_held: 0, bulk_alive: 0, wq: Default::default(), iss_counter: 0, cur_iss: 0, iss_of: HashMap::new(), sys: Default::default(),
+            gc_guaranteed_this_step: false, in_direct_step: false, in_gc: false, in_op_prologue: false, pre_targets: None, pre_ent: None, pre_t_present: None, poll_epoch: 0, sure_epoch: 0, gc_must: Vec::new(), gc_pending_deadline: false, gc_overdue: Vec::new(), gc_overdue_insts: Vec::new(), gc_taking: Vec::new(), gone_pos: HashMap::new(), stale_take_seen: false, revoked_polled: false, gc_before: Vec::new(), doomed_in_tree: Vec::new(), sig_harness: [0; 4], deferred_bail: None, bulk_released: 0, bulk_held: 0, bulk_alive: 0, wq: Default::default(), iss_counter: 0, cur_iss: 0, iss_of: HashMap::new(), sys: Default::default(),
         }
     }
 
@@ -458,6 +462,19 @@ impl<'a> Checker<'a>
                 }
                 fail!(self, "C18", "entity-liveness", &["C10", "C08"], "entity {bits:#x} was despawned although nothing in the program despawns it");
             }
+            Ev::GcTake(bits) =>
+            {
+                // `despawn_recursive` first of all takes the entity out of its parent's child list -- before the flush with which
+                // the despawn itself begins. A recursive despawn of the parent from inside that flush no longer reaches it.
+                // (a notification for something that went earlier -- its `Gone` may still be waiting to be judged -- is stale)
+                if self.gone_pos.get(bits).map(|p| *p < fpos).unwrap_or(false) { self.stale_take_seen = true; return Ok(true); }
+                if self.insts.iter().any(|t| t.real == Some(*bits) && !t.alive) || self.ents.iter().any(|x| x.real == *bits && !x.alive) { self.stale_take_seen = true; }
+                if let Some(e) = self.ents.iter().rposition(|x| x.real == *bits)
+                {
+                    if self.ents[e].alive { if let Some(p) = self.ents[e].parent.take() { self.ents[p].children.retain(|c| *c != e); } }
+                }
+                Ok(true)
+            }
             Ev::Canary(i) =>
             {
                 let t = &self.insts[*i as usize];
@@ -490,7 +507,7 @@ impl<'a> Checker<'a>
             {
                 Ev::GcTake(bits) => { self.gc_taking.push(*bits); self.stats.gc_takes += 1; if self.gc_taking.len() as u64 > self.stats.max_gc_nesting { self.stats.max_gc_nesting = self.gc_taking.len() as u64; } }
                 // (... until it is observed going: the remove hook of a slot entity, the dropped state of a system)
-                Ev::Gone(bits) => { self.gc_taking.retain(|b| b != bits); }
+                Ev::Gone(bits) => { self.gc_taking.retain(|b| b != bits); let pos = self.pos; self.gone_pos.entry(*bits).or_insert(pos); }
                 Ev::Canary(i) => { if let Some(r) = self.insts[*i as usize].real { self.gc_taking.retain(|b| *b != r); } }
                 _ => {}
             }
@@ -501,7 +518,8 @@ impl<'a> Checker<'a>
         let ev = self.trace.get(self.pos);
         if let Some(Ev::Panic(msg)) = ev
         {
-            fail!(self, "C18", "panic", &["C02", "C03", "C07", "C10", "C11", "C12"], "panic: {msg}");
+            // (a panic inside the framework ends the tree: whatever any property promises about this run is off)
+            fail!(self, "C18", "panic", &["C01", "C02", "C03", "C04", "C05", "C06", "C07", "C08", "C09", "C10", "C11", "C12", "C13", "C14", "C15", "C16", "C17"], "panic: {msg}");
         }
         if let (Some(id), Some(e)) = (self.pending_immediate_drop, ev)
         {
@@ -772,7 +790,9 @@ impl<'a> Checker<'a>
         self.stats.polled_events += 1;
         let in_tree = self.tree_depth > 0;
         if in_tree { self.stats.polled_in_tree += 1; }
-        let sender = self.sender;
+        // (what a collection pass despawns, it despawns in an order of its own -- children first, interleaved with whatever nested
+        // collections take meanwhile: those removals are not ordered against each other)
+        let sender = if self.in_gc { (0xFE, 0) } else { self.sender };
         let epoch = self.poll_epoch;
         let sure = self.sure_epoch;
         self.polled.push(Polled { kind, ent, must, extra, delivered: Vec::new(), in_tree, closed: false, sender, epoch, sure });
@@ -901,6 +921,7 @@ impl<'a> Checker<'a>
                 // to do and the enclosing one finishes the job right after: judged when the step is over.
                 if self.being_taken(e) { self.gc_overdue.push(e); self.stats.gc_nested_deferred += 1; continue; }
                 let bits = self.real(e);
+                if self.stale_take_seen { fail!(self, "C10", "autodespawn-leak", &["C18"], "entity {bits:#x} survived a garbage collection although every clone of its signal had been dropped before the collection started (the pass had received a notification for something already gone before)"); }
                 fail!(self, "C10", "autodespawn-leak", &[], "entity {bits:#x} survived a garbage collection although every clone of its signal had been dropped before the collection started");
             }
         }
@@ -1365,7 +1386,7 @@ impl<'a> Checker<'a>
                     if let Some(c) = pending
                     {
                         let want = self.expected_sample(&c);
-                        fail!(self, "C03", "wrong-event-data", &["C12", "C05", "C04"], "instance {inst} ran for {c:?} (or another pending delivery) but its readers show {s:?}; expected e.g. {want:?}");
+                        fail!(self, "C03", "wrong-event-data", &["C12", "C05", "C04", "C11"], "instance {inst} ran for {c:?} (or another pending delivery) but its readers show {s:?}; expected e.g. {want:?}");
                     }
                     return self.unexpected_body(inst, s, "a delivery that accounts for this run");
                 };
@@ -2365,7 +2386,13 @@ impl<'a> Checker<'a>
             WOp::TakeStorage(_) => return Err(Stop::Bail(Bail("storage fault is not judged by the lock-step spec".into()))),
             WOp::Syscall(kind, key, input) => self.sys_call(*kind, *key, *input, false, u)?,
             WOp::SpawnSys(k, key) => { let k = *k as usize % 4; if self.sys.spawned[k].is_none() { self.sys.spawned[k] = Some((*key % crate::sysfam::NKEYS, true)); } }
-            WOp::KillSys(k) => { if let Some(s) = self.sys.spawned[*k as usize % 4].as_mut() { s.1 = false; } }
+            WOp::KillSys(k) =>
+            {
+                let k = *k as usize % 4;
+                if let Some(s) = self.sys.spawned[k].as_mut() { s.1 = false; }
+                // (a system inserted into a slot entity: killing it despawns that entity)
+                if let Some(e) = self.sys.on_ent[k] { if self.ents[e].alive { self.despawn_ent(e); } }
+            }
             WOp::ClearSys(k) => { let k = *k as usize % 4; if self.sys.on_ent[k].is_none() { if let Some(s) = self.sys.spawned[k].as_mut() { s.1 = false; self.stats.sys_cleared += 1; } } }
             WOp::RevokeNamed(n, key) =>
             {
@@ -2670,6 +2697,8 @@ impl<'a> Checker<'a>
                 if t.once_fired { fail!(self, "C15", "once-entity-leaked", &["C07"], "one-off reactor {i} still exists after it ran (step {step})"); }
                 if t.chain_doomed { fail!(self, "C11", "gc-chain-not-settled", &["C07", "C10"], "ref-counted instance {i} lost its last handle when a garbage collection despawned its trigger entity, but that collection left it alive: its despawn is still pending after step {step}"); }
                 if self.prog.insts[i].rc && t.sig_released { fail!(self, "C10", "autodespawn-leak", &["C07"], "ref-counted system command {i} still exists after step {step} although its signal was dropped before a garbage collection"); }
+                // (a stale notification in the collector's channel must be tolerated: what is queued behind it is collected all the same, C18)
+                if self.stale_take_seen { fail!(self, "C07", "reactor-leaked", &["C15", "C18"], "instance {i} still exists after step {step}; it should have been despawned (a collection pass had received a notification for something already gone before)"); }
                 fail!(self, "C07", "reactor-leaked", &["C15"], "instance {i} still exists after step {step}; it should have been despawned");
             }
             if !*alive && !t.canary
